@@ -191,7 +191,8 @@ def probes(jsonrpc):
             f = make(sig)
             for kind, a in probe_calls(n):
                 if kind == 'P':
-                    obs = observe(jsonrpc, f, [None] * a)
+                    # list and tuple are both positional containers
+                    obs = observe(jsonrpc, f, [None] * a if a % 2 == 0 else (None,) * a)
                     call = (False, a, [])
                 else:
                     obs = observe(jsonrpc, f, {k: None for k in a})
